@@ -101,7 +101,14 @@ impl HostFilter for RejectAll {
     }
 }
 
-fn node_config() -> NodeConfig {
+/// One process-wide configuration: `Metrics::new()` allocates a 1.7 MiB histogram, far too much to
+/// repeat for every world an explicit-state search builds.
+fn node_config() -> &'static NodeConfig {
+    static CONFIG: std::sync::OnceLock<NodeConfig> = std::sync::OnceLock::new();
+    CONFIG.get_or_init(build_node_config)
+}
+
+fn build_node_config() -> NodeConfig {
     let (connectivity_events_sender, _) = tokio::sync::mpsc::unbounded_channel();
     // Never used: every node is disabled (reject-all filter), so no pool is ever built from it.
     let pool_config = PoolConfig {
@@ -197,9 +204,11 @@ fn peers(nodes: &[NodeSpec]) -> Vec<Peer> {
 }
 
 /// A real `ClusterState` (empty token ring, disabled nodes) whose tablet info is under test.
+/// `Clone` is `ClusterState::clone`, the operation `ClusterWorker` performs before every tablet update.
+#[derive(Clone)]
 pub struct World {
     state: ClusterState,
-    node_config: NodeConfig,
+    node_config: &'static NodeConfig,
 }
 
 impl World {
@@ -207,7 +216,7 @@ impl World {
     pub fn new(nodes: &[NodeSpec], keyspaces: &[KeyspaceSpec]) -> World {
         let node_config = node_config();
         let state =
-            ClusterState::verif_new_sync(metadata(nodes, keyspaces), &node_config, Some(&RejectAll));
+            ClusterState::verif_new_sync(metadata(nodes, keyspaces), node_config, Some(&RejectAll));
         World { state, node_config }
     }
 
@@ -215,7 +224,7 @@ impl World {
     pub async fn new_production(nodes: &[NodeSpec], keyspaces: &[KeyspaceSpec]) -> World {
         let node_config = node_config();
         let state =
-            ClusterState::new(metadata(nodes, keyspaces), &node_config, Some(&RejectAll)).await;
+            ClusterState::new(metadata(nodes, keyspaces), node_config, Some(&RejectAll)).await;
         World { state, node_config }
     }
 
@@ -223,7 +232,7 @@ impl World {
     pub fn refresh(&mut self, nodes: &[NodeSpec], keyspaces: &[KeyspaceSpec]) {
         self.state = self.state.verif_new_updated_sync(
             metadata(nodes, keyspaces),
-            &self.node_config,
+            self.node_config,
             Some(&RejectAll),
         );
     }
@@ -234,7 +243,7 @@ impl World {
             .state
             .new_updated(
                 metadata(nodes, keyspaces),
-                &self.node_config,
+                self.node_config,
                 Some(&RejectAll),
             )
             .await;
@@ -245,7 +254,7 @@ impl World {
     pub async fn refresh_topology_production(&mut self, nodes: &[NodeSpec]) {
         self.state = self
             .state
-            .new_with_updated_topology(peers(nodes), &self.node_config, Some(&RejectAll))
+            .new_with_updated_topology(peers(nodes), self.node_config, Some(&RejectAll))
             .await;
     }
 
